@@ -252,7 +252,7 @@ func InvertLinear(r Region, n int) []Region {
 func InvertCircular(r Region, n int) []Region {
 	ss := Minimize(r)
 	rr := InvertLinear(r, n)
-	if ss[0][0] == 0 || ss[len(ss)-1][1] == n {
+	if len(ss) == 0 || ss[0][0] == 0 || ss[len(ss)-1][1] == n {
 		return rr
 	}
 	rr[0] = Regions{rr[len(rr)-1], rr[0]}
